@@ -3366,7 +3366,7 @@ func (node *SubstrExpr) Format(buf *TrackedBuffer) {
 	if node.To == nil {
 		buf.Myprintf("substr(%v, %v)", val, node.From)
 	} else {
-		buf.Myprintf("substr(%v, %v, %v)", val, node.From, node.To)
+		buf.Myprintf("substr(%v from %v for %v)", val, node.From, node.To)
 	}
 }
 
